@@ -406,7 +406,12 @@ func (l *lexer) next() rune {
 }
 
 func (l *lexer) nextToken() Token {
-	return <-l.tokens
+	if t, ok := <-l.tokens; ok {
+		return t
+	}
+	// the lexer has stopped (EOF or error already delivered): keep
+	// answering EOF so that no caller loops on zero tokens.
+	return Token{Kind: EOF, EndAt: len(l.input)}
 }
 
 func (l *lexer) peek() rune {
